@@ -3,7 +3,7 @@
    The group is abstract: [group_laws] (Crypto/EcdsaSpec.v) is an explicit premise. *)
 From Coq Require Import ZArith List Bool.
 From FV Require Import Base.Bytes Crypto.EcdsaModel Crypto.EcdsaSpec Crypto.EcdsaProofs
-                       Crypto.Secp256k1 Crypto.EcdsaWitness.
+                       Crypto.Secp256k1 Crypto.EcdsaWitness Crypto.EcdsaToy.
 Open Scope Z_scope.
 
 (* recover under rule set A = recover under rule set B on every input
@@ -32,8 +32,35 @@ Theorem C16_verify_same_rules :
 Proof. exact verify_same_rules_iff. Qed.
 Print Assumptions C16_verify_same_rules.
 
-(* the rule sets read off the two real back-ends: k256's re-verification inside recover is exactly a
-   high-s filter on top of what libsecp256k1 computes *)
+(* HEADLINE (recover): on every 64-byte signature and 32-byte message the k256 back-end
+   (k256.rs recover: decode, normalise s and flip the parity, recover_from_prehash = rules_k256) and the
+   libsecp256k1 back-end (secp256k1.rs recover = rules_libsecp) return the same key or both fail *)
+Theorem C16_backends_recover_agree :
+  forall (point : Type) (pt_eqb : point -> point -> bool) (add : point -> point -> point)
+         (neg : point -> point) (zero : point) (smul : Z -> point -> point) (G : point) (n : Z)
+         (x_of : point -> Z) (y_odd : point -> bool) (lift_x : Z -> bool -> option point),
+    group_laws point pt_eqb add neg zero smul G n x_of y_odd lift_x ->
+    forall sig msg : bytes,
+      recover_norm point pt_eqb add zero smul G n x_of lift_x (rules_k256 n) sig msg =
+      recover point pt_eqb add zero smul G n x_of lift_x (rules_libsecp n) sig msg.
+Proof. exact backends_recover_agree. Qed.
+Print Assumptions C16_backends_recover_agree.
+
+(* the same on decoded (r, s, parity, z), for all integers *)
+Theorem C16_backends_recover_agree_rsv :
+  forall (point : Type) (pt_eqb : point -> point -> bool) (add : point -> point -> point)
+         (neg : point -> point) (zero : point) (smul : Z -> point -> point) (G : point) (n : Z)
+         (x_of : point -> Z) (y_odd : point -> bool) (lift_x : Z -> bool -> option point),
+    group_laws point pt_eqb add neg zero smul G n x_of y_odd lift_x ->
+    forall r s v z,
+      recover_rsv_normalising point pt_eqb add zero smul G n x_of lift_x (rules_k256 n) r s v z =
+      recover_rsv point pt_eqb add zero smul G n x_of lift_x (rules_libsecp n) r s v z.
+Proof. exact k256_normalising_agrees. Qed.
+Print Assumptions C16_backends_recover_agree_rsv.
+
+(* why the normalisation step is needed: the ecdsa crate's recover_from_prehash (recover_rsv under
+   rules_k256: it re-verifies with the recovered key) is exactly a high-s filter on top of what
+   libsecp256k1 computes *)
 Theorem C16_k256_recover_is_high_s_filter :
   forall (point : Type) (pt_eqb : point -> point -> bool) (add : point -> point -> point)
          (neg : point -> point) (zero : point) (smul : Z -> point -> point) (G : point) (n : Z)
@@ -48,7 +75,7 @@ Proof.
 Qed.
 Print Assumptions C16_k256_recover_is_high_s_filter.
 
-(* verification: the two back-ends agree on every 64-byte signature, key and 32-byte message *)
+(* HEADLINE (verify): the two back-ends agree on every 64-byte signature, key and 32-byte message *)
 Theorem C16_backends_verify_agree :
   forall (point : Type) (pt_eqb : point -> point -> bool) (add : point -> point -> point)
          (zero : point) (smul : Z -> point -> point) (G : point) (n : Z) (x_of : point -> Z)
@@ -58,54 +85,47 @@ Theorem C16_backends_verify_agree :
 Proof. reflexivity. Qed.
 Print Assumptions C16_backends_verify_agree.
 
-(* recovery: they agree on every signature whose s is in the lower half ... *)
-Theorem C16_backends_recover_agree_low_s :
-  forall (point : Type) (pt_eqb : point -> point -> bool) (add : point -> point -> point)
-         (neg : point -> point) (zero : point) (smul : Z -> point -> point) (G : point) (n : Z)
-         (x_of : point -> Z) (y_odd : point -> bool) (lift_x : Z -> bool -> option point),
-    group_laws point pt_eqb add neg zero smul G n x_of y_odd lift_x ->
-    forall sig msg : bytes,
-      is_high n (sig_s (fst (decode_signature sig))) = false ->
-      recover point pt_eqb add zero smul G n x_of lift_x (rules_k256 n) sig msg =
-      recover point pt_eqb add zero smul G n x_of lift_x (rules_libsecp n) sig msg.
-Proof. exact recover_backends_agree_low_s. Qed.
-Print Assumptions C16_backends_recover_agree_low_s.
+(* corpus case F5 (r = Gx, s = n/2 + 1, digest 1; the input on which the back-ends differed before fix
+   378a736), evaluated on the executable secp256k1 instance: both models return the same key, which is
+   the key both real back-ends return *)
+Theorem C16_F5_corpus_case_agrees :
+  m_recover_k256 secp256k1_pure f5_sig f5_msg = Some f5_key /\
+  m_recover secp256k1_pure (rules_libsecp n_k1) f5_sig f5_msg = Some f5_key.
+Proof. exact f5_backends_agree. Qed.
+Print Assumptions C16_F5_corpus_case_agrees.
 
-(* ... and for EVERY s in the upper half there is a signature on which they differ *)
-Theorem C16_backends_recover_differ_high_s :
-  forall (point : Type) (pt_eqb : point -> point -> bool) (add : point -> point -> point)
-         (neg : point -> point) (zero : point) (smul : Z -> point -> point) (G : point) (n : Z)
-         (x_of : point -> Z) (y_odd : point -> bool) (lift_x : Z -> bool -> option point),
-    group_laws point pt_eqb add neg zero smul G n x_of y_odd lift_x ->
-    forall s, 1 <= s < n -> is_high n s = true ->
-      exists r v z Q,
-        recover_rsv point pt_eqb add zero smul G n x_of lift_x (rules_libsecp n) r s v z = Some Q /\
-        recover_rsv point pt_eqb add zero smul G n x_of lift_x (rules_k256 n) r s v z = None.
-Proof. exact backends_recover_differ_high_s. Qed.
-Print Assumptions C16_backends_recover_differ_high_s.
+(* signing: with the nonce derivation as an oracle of (key, digest octets) — k256 reduces the digest
+   modulo n first, libsecp256k1 does not — the two back-ends produce the same signature for every
+   message whose integer value is below n (no premise on the group) *)
+Theorem C16_sign_agree_below_n :
+  forall (point : Type) (pt_eqb : point -> point -> bool) (zero : point) (smul : Z -> point -> point)
+         (G : point) (n : Z) (x_of : point -> Z) (y_odd : point -> bool)
+         (nonce : Z -> Z -> Z) (d : Z) (msg : bytes),
+    bytes_z msg < n ->
+    sign_det point pt_eqb zero smul G n x_of y_odd nonce true d msg =
+    sign_det point pt_eqb zero smul G n x_of y_odd nonce false d msg.
+Proof. exact sign_det_agree_below_n. Qed.
+Print Assumptions C16_sign_agree_below_n.
 
-(* the full statement for recovery, on the executable secp256k1 instance, and its refutation (F5) *)
-Definition C16_full_statement : Prop :=
-  forall sig msg : bytes,
-    m_recover secp256k1_pure (rules_k256 n_k1) sig msg =
-    m_recover secp256k1_pure (rules_libsecp n_k1) sig msg.
+(* ... and the unrestricted statement is refuted (known finding backend-sign-mismatch-message-ge-n):
+   for a message >= n a nonce oracle can separate m from m mod n, and the real libraries do:
+   d = 1, m = ff..ff gives two different signatures, both valid for the key G *)
+Definition C16_sign_full_statement : Prop :=
+  forall (point : Type) (pt_eqb : point -> point -> bool) (zero : point) (smul : Z -> point -> point)
+         (G : point) (n : Z) (x_of : point -> Z) (y_odd : point -> bool)
+         (nonce : Z -> Z -> Z) (d : Z) (msg : bytes),
+    sign_det point pt_eqb zero smul G n x_of y_odd nonce true d msg =
+    sign_det point pt_eqb zero smul G n x_of y_odd nonce false d msg.
 
-Theorem C16_refuted : ~ C16_full_statement.
+Theorem C16_sign_ge_n_refuted : ~ C16_sign_full_statement.
 Proof.
-  intros H. destruct f5_backends_disagree as [H1 H2].
-  rewrite H in H2. rewrite H1 in H2. discriminate H2.
+  intros H. destruct toy_sign_det_differs_ge_n as [_ Hne]. apply Hne. apply H.
 Qed.
-Print Assumptions C16_refuted.
+Print Assumptions C16_sign_ge_n_refuted.
 
-(* the suggested fix (k256 back-end: if s is high, replace s by n - s and flip the parity before
-   recovering) makes the two back-ends agree on every input *)
-Theorem C16_fix_restores_agreement :
-  forall (point : Type) (pt_eqb : point -> point -> bool) (add : point -> point -> point)
-         (neg : point -> point) (zero : point) (smul : Z -> point -> point) (G : point) (n : Z)
-         (x_of : point -> Z) (y_odd : point -> bool) (lift_x : Z -> bool -> option point),
-    group_laws point pt_eqb add neg zero smul G n x_of y_odd lift_x ->
-    forall r s v z,
-      recover_rsv_normalising point pt_eqb add zero smul G n x_of lift_x (rules_k256 n) r s v z =
-      recover_rsv point pt_eqb add zero smul G n x_of lift_x (rules_libsecp n) r s v z.
-Proof. exact k256_normalising_agrees. Qed.
-Print Assumptions C16_fix_restores_agreement.
+Theorem C16_sign_ge_n_library_witness :
+  bytes_z sgn_msg >= n_k1 /\ sgn_k256 <> sgn_libsecp /\
+  m_recover secp256k1_pure (rules_libsecp n_k1) sgn_k256 sgn_msg = pk_bytes (a_G secp256k1_pure) /\
+  m_recover secp256k1_pure (rules_libsecp n_k1) sgn_libsecp sgn_msg = pk_bytes (a_G secp256k1_pure).
+Proof. exact sign_ge_n_witness. Qed.
+Print Assumptions C16_sign_ge_n_library_witness.
